@@ -79,6 +79,8 @@ fn inside_fold(q: &Query, path: &[usize]) -> bool {
     (1..=path.len()).any(|k| edge_at(q, &path[..k]).fold)
 }
 
+const RUN_QUERY_PULL_BUDGET: u64 = 400_000;
+
 struct RunOut {
     rows: Vec<Row>,
 }
@@ -94,7 +96,15 @@ fn run_query(case: &WorldCase, q: &Query, args: &BTreeMap<String, Value>) -> Res
         CompileOutcome::Err(e) => return Err(format!("rejected:{}", e.split(['(', ' ']).next().unwrap_or(""))),
         CompileOutcome::Panic(_) => return Err("frontend-panic(C10)".into()),
     };
-    match engine::execute(Arc::new(GraphAdapter::new(case.world.clone())), iq, engine::args_to_engine(args), ROW_LIMIT) {
+    // harness protection: a transformed query (deeper recursion, dropped filter) can need minutes; such cases are
+    // discarded by a pull budget instead
+    let (adapter, budget) = crate::wrappers::BudgetAdapter::new(GraphAdapter::new(case.world.clone()), RUN_QUERY_PULL_BUDGET);
+    #[allow(clippy::arc_with_non_send_sync)]
+    let outcome = engine::execute(Arc::new(adapter), iq, engine::args_to_engine(args), ROW_LIMIT);
+    if budget.exhausted() {
+        return Err("too-much-work".into());
+    }
+    match outcome {
         ExecOutcome::Rows(r) => {
             if r.len() >= ROW_LIMIT {
                 return Err("too-many-rows".into());
@@ -112,6 +122,22 @@ fn multiset(rows: &[Row]) -> BTreeMap<String, usize> {
         *m.entry(canon_row(r)).or_insert(0) += 1;
     }
     m
+}
+
+/// list values with their elements sorted (recursively) by canonical text
+fn sort_lists(v: &Value) -> Value {
+    match v {
+        Value::List(items) => {
+            let mut sorted: Vec<Value> = items.iter().map(sort_lists).collect();
+            sorted.sort_by_key(|x| x.canon());
+            Value::List(sorted)
+        }
+        other => other.clone(),
+    }
+}
+
+fn sort_lists_in_row(r: &Row) -> Row {
+    r.iter().map(|(k, v)| (k.clone(), sort_lists(v))).collect()
 }
 
 fn sub_multiset(a: &BTreeMap<String, usize>, b: &BTreeMap<String, usize>) -> bool {
@@ -347,6 +373,10 @@ struct Transformed {
     queries: Vec<(Query, BTreeMap<String, Value>)>,
     /// output-name mapping from the base query's names to the transformed query's names
     rename: Option<BTreeMap<String, String>>,
+    /// the transformation reorders expansions inside a @fold: the fold's output lists hold the same sub-rows in a
+    /// different order (exactly like top-level rows, which are compared as a multiset), so list values are compared
+    /// up to element order
+    fold_lists_reordered: bool,
 }
 
 fn fresh_var(case: &WorldCase, hint: &str) -> String {
@@ -420,9 +450,9 @@ fn transform(c: &mut Choices<'_>, case: &WorldCase, rel: &str) -> Option<Transfo
             };
             if partition {
                 let neg = op.negation()?;
-                Some(Transformed { queries: vec![(mk(op), args.clone()), (mk(neg), args)], rename: None })
+                Some(Transformed { queries: vec![(mk(op), args.clone()), (mk(neg), args)], rename: None, fold_lists_reordered: false })
             } else {
-                Some(Transformed { queries: vec![(mk(op), args)], rename: None })
+                Some(Transformed { queries: vec![(mk(op), args)], rename: None, fold_lists_reordered: false })
             }
         }
         "raise_recurse_depth" => {
@@ -435,7 +465,7 @@ fn transform(c: &mut Choices<'_>, case: &WorldCase, rel: &str) -> Option<Transfo
             let mut q2 = q.clone();
             let e = edge_at_mut(&mut q2, &path);
             e.recurse = Some(e.recurse.unwrap() + 1 + c.below(2) as u32);
-            Some(Transformed { queries: vec![(q2, case.args.clone())], rename: None })
+            Some(Transformed { queries: vec![(q2, case.args.clone())], rename: None, fold_lists_reordered: false })
         }
         "add_optional" => {
             let paths: Vec<Vec<usize>> = root_component_paths(q)
@@ -454,7 +484,7 @@ fn transform(c: &mut Choices<'_>, case: &WorldCase, rel: &str) -> Option<Transfo
             let path = paths[c.below(paths.len())].clone();
             let mut q2 = q.clone();
             edge_at_mut(&mut q2, &path).optional = true;
-            Some(Transformed { queries: vec![(q2, case.args.clone())], rename: None })
+            Some(Transformed { queries: vec![(q2, case.args.clone())], rename: None, fold_lists_reordered: false })
         }
         "parameter_as_filter" => {
             let mut cands = vec![];
@@ -490,7 +520,7 @@ fn transform(c: &mut Choices<'_>, case: &WorldCase, rel: &str) -> Option<Transfo
                 e.body.push(Sel::Prop(PropSel { name: prop, filters: vec![Filter { op: Op::Eq, arg: Some(Arg::Var(name.clone())) }], ..Default::default() }));
             }
             args.insert(name, v);
-            Some(Transformed { queries: vec![(q2, args)], rename: None })
+            Some(Transformed { queries: vec![(q2, args)], rename: None, fold_lists_reordered: false })
         }
         "eq_as_one_of" => {
             // every (path, body index, filter index) of an `=` / `!=` filter with a variable that is used only once
@@ -523,7 +553,7 @@ fn transform(c: &mut Choices<'_>, case: &WorldCase, rel: &str) -> Option<Transfo
             }
             let v = args.remove(&var)?;
             args.insert(name, Value::List(vec![v]));
-            Some(Transformed { queries: vec![(q2, args)], rename: None })
+            Some(Transformed { queries: vec![(q2, args)], rename: None, fold_lists_reordered: false })
         }
         "rename_outputs_and_tags" => {
             let mut q2 = q.clone();
@@ -589,7 +619,7 @@ fn transform(c: &mut Choices<'_>, case: &WorldCase, rel: &str) -> Option<Transfo
             if rename.is_empty() && tag_rename.is_empty() {
                 return None;
             }
-            Some(Transformed { queries: vec![(q2, case.args.clone())], rename: Some(rename) })
+            Some(Transformed { queries: vec![(q2, case.args.clone())], rename: Some(rename), fold_lists_reordered: false })
         }
         "permute_siblings" => {
             let paths = edge_paths(q);
@@ -605,8 +635,20 @@ fn transform(c: &mut Choices<'_>, case: &WorldCase, rel: &str) -> Option<Transfo
                 return None;
             }
             e.body.swap(i, j);
+            // inside a fold (the edge itself or any ancestor is folded) the order of the swapped selections is the order in
+            // which the fold's sub-rows are produced
+            let mut inside_fold = q.root.fold;
+            {
+                let mut cur = &q.root;
+                for k in &path {
+                    if let Sel::Edge(ch) = &cur.body[*k] {
+                        cur = ch;
+                        inside_fold |= cur.fold;
+                    }
+                }
+            }
             // implicit output names do not depend on sibling order, so the identity mapping applies
-            Some(Transformed { queries: vec![(q2, case.args.clone())], rename: Some(BTreeMap::new()) })
+            Some(Transformed { queries: vec![(q2, case.args.clone())], rename: Some(BTreeMap::new()), fold_lists_reordered: inside_fold })
         }
         _ => None,
     }
@@ -667,7 +709,16 @@ pub fn c23_case(bytes: &[u8], stats: &mut Stats, counting: bool, cfg: &GenConfig
                 .iter()
                 .map(|r| r.iter().map(|(k, v)| (map.get(k).cloned().unwrap_or_else(|| k.clone()), v.clone())).collect())
                 .collect();
-            (multiset(&renamed) == m0, !mb.is_empty())
+            if t.fold_lists_reordered {
+                let a: Vec<Row> = renamed.iter().map(sort_lists_in_row).collect();
+                let b: Vec<Row> = outs[0].rows.iter().map(sort_lists_in_row).collect();
+                if counting {
+                    stats.label("permute_siblings:inside_fold(lists compared up to order)");
+                }
+                (multiset(&a) == multiset(&b), !mb.is_empty())
+            } else {
+                (multiset(&renamed) == m0, !mb.is_empty())
+            }
         }
         _ => (true, false),
     };
@@ -689,9 +740,11 @@ pub fn c23_case(bytes: &[u8], stats: &mut Stats, counting: bool, cfg: &GenConfig
         Verdict::Fail {
             sig: format!("c23:{rel}"),
             msg: format!(
-                "relation `{rel}` does not hold: base {} rows, transformed {:?} rows\nquery:\n{}\ntransformed:\n{}\nargs: {:?}\ntransformed args: {:?}",
+                "relation `{rel}` does not hold: base {} rows, transformed {:?} rows\nbase rows (first 3): {:?}\ntransformed rows (first 3): {:?}\nquery:\n{}\ntransformed:\n{}\nargs: {:?}\ntransformed args: {:?}",
                 base.rows.len(),
                 outs.iter().map(|o| o.rows.len()).collect::<Vec<_>>(),
+                base.rows.iter().take(3).map(canon_row).collect::<Vec<_>>(),
+                outs.iter().map(|o| o.rows.iter().take(3).map(canon_row).collect::<Vec<_>>()).collect::<Vec<_>>(),
                 case.query_text,
                 t.queries.iter().map(|(q, _)| q.render()).collect::<Vec<_>>().join("\n--\n"),
                 case.args,
@@ -717,7 +770,7 @@ pub fn c23(ctx: &CheckCtx) -> i32 {
          changes nothing (kept only if both compile). Non-trivial: results differ (1-3) or are non-empty (4-8); distinct by \
          (case, relation, position).",
     );
-    let cases = ctx.cases(80_000, 2_400_000);
+    let cases = ctx.cases(240_000, 2_400_000);
     let res = search(ctx, "c23", cases, WORLD_MIN_LEN + 25, WORLD_MAX_LEN + 25, |b, s, k| c23_case(b, s, k, &cfg));
     report.absorb(res, &|b| {
         let rel = RELATIONS[Choices::new(b).below(RELATIONS.len())];
